@@ -23,8 +23,8 @@ RULE = ('a case = one generated FileStorage history (stores, deletes, undos, res
 ASSUMPTIONS = ['crash model: prefix of the recorded raw operations with torn single writes; plus fsync-ordering '
                'oracle (no write to the data file after its last fsync when tpc_finish returns)',
                'side files (.index/.tmp/.lock) are absent in the image (C09 covers stale ones)']
-BUDGET = {'quick': {'examples': 400, 'workers': 8},
-          'thorough': {'examples': 6000, 'workers': 16}}
+BUDGET = {'quick': {'examples': 800, 'workers': 8},
+          'thorough': {'examples': 8000, 'workers': 16}}
 _TIER = ['quick']
 
 
